@@ -601,6 +601,8 @@ class SingleAdapter(Adapter, ABC):
         if max_errors >= 1 and self.sequence.count("N") != len(self.sequence):
             max_errors /= len(self.sequence) - self.sequence.count("N")
         self.max_error_rate: float = max_errors
+        if min_overlap < 1:
+            raise ValueError("The minimum overlap must be at least 1")
         self.min_overlap: int = min(min_overlap, len(self.sequence))
         iupac = frozenset("ABCDGHKMNRSTUVWXY")
         if adapter_wildcards and not set(self.sequence) <= iupac:
